@@ -578,4 +578,8 @@ class ServeMpsMedia(MediaRequestBase):
                 # origin_time += representation.mediaDuration
                 # mod_seg -= representation.num_media_segments
                 # assert mod_seg > 0
+        if seg_num is None:
+            # request addressed by time: number the fragment after its
+            # position in the source media
+            seg_num = mod_seg
         return SegmentPosition(mod_seg, origin_time, seg_num)
